@@ -200,6 +200,11 @@ Section Sigma.
     apply (H m m b Hi). split; auto.
   Qed.
 
+  (* fix the initial manager (to compute ghost values from it) *)
+  Lemma t_init : forall {A} (P : mgr -> Prop) (c : M A) (Q : A -> mgr -> Prop),
+    (forall m0, MInvS m0 -> P m0 -> triple (fun m => m = m0) c Q) -> triple P c Q.
+  Proof. intros A P c Q H m b Hi Hp. exact (H m Hi Hp m b Hi eq_refl). Qed.
+
   Lemma t_modm : forall (P : mgr -> Prop) (f : mgr -> mgr) (Q : unit -> mgr -> Prop),
     (forall m, MInvS m -> P m -> MInvS (f m) /\ ext m (f m) /\ Q tt (f m)) -> triple P (modm f) Q.
   Proof.
